@@ -17,7 +17,7 @@ struct Plan : sim::PlanBase {
   uint64_t case_seed = 0;  // positions, box sizes
   int nmol = 8;            // molecules
   int chain = 3;           // beads per molecule
-  int fmt = 0;             // 0 LAMMPS dump, 1 gro
+  int fmt = 0;             // 0 LAMMPS dump, 1 gro, 2 pdb, 3 xyz (box from the topology), 4 DL_POLY HISTORY
   int variant = 0;         // tool specific option bits
   int block = 0;           // block length (csg_stat)
   int vol_jitter = 0;      // 1: the box volume differs from frame to frame; 2: it changes every second or third frame only
@@ -50,7 +50,8 @@ bool tool_numbers_comparable(const Plan &p);  // unordered mode: false if the pl
 long selected_frames(const Plan &p);           // number of frames the selection options keep (model of --first-frame/--nframes)
 
 // helpers for generators
-std::string gen_topology_xml(const Plan &p, bool two_types);
+std::string gen_topology_xml(const Plan &p, bool two_types, double box = 0);
+const char *trj_file(const Plan &p);   // name of the trajectory file for the plan's format
 std::string gen_trajectory(const Plan &p, double box, int nbeads_total);
 std::string fmt_double(double v);
 
